@@ -107,9 +107,21 @@ def _get_import_for_qualname(qualname: str) -> str:
     return qualname.split(".")[0]
 
 
+# Builtin types that are not reachable as builtins.<name>, and where a stub can
+# import them from instead.
+_HIDDEN_BUILTIN_TYPES = {
+    type(NotImplemented): ("types", "NotImplementedType"),
+    type(type.__dict__): ("types", "MappingProxyType"),
+}
+
+
 def get_imports_for_annotation(anno: Any) -> ImportMap:
     """Return the imports (module, name) needed for the type in the annotation"""
     imports = ImportMap()
+    if isinstance(anno, type) and anno in _HIDDEN_BUILTIN_TYPES:
+        module, name = _HIDDEN_BUILTIN_TYPES[anno]
+        imports[module].add(name)
+        return imports
     if (
         anno is inspect.Parameter.empty
         or anno is inspect.Signature.empty
@@ -332,7 +344,9 @@ class RenderAnnotation(GenericTypeRewriter[str]):
         elif is_generic(typ):
             rendered = repr(typ)
         elif isinstance(typ, type):
-            if typ.__module__ in ("builtins",):
+            if typ in _HIDDEN_BUILTIN_TYPES:
+                rendered = ".".join(_HIDDEN_BUILTIN_TYPES[typ])
+            elif typ.__module__ in ("builtins",):
                 rendered = typ.__qualname__
             else:
                 rendered = typ.__module__ + "." + typ.__qualname__
